@@ -283,7 +283,7 @@ def qs_of_line(line):
     return []
 
 
-MODEL_CFG = "legacy"   # which variant of Rel.v mirrors /repo today (see Rel.v: legacy_cfg / f7_cfg / fixed_cfg)
+MODEL_CFG = "fixed"   # which variant of Rel.v mirrors /repo today (see Rel.v: legacy_cfg / f7_cfg / fixed_cfg)
 
 
 def run(ctx):
